@@ -31,6 +31,8 @@ pub enum Dev {
     RelatedKey(u8),
     /// u (false) or w (true) plus a point outside the prime order subgroup, presented through a decoder
     AddTorsion(bool, Codec),
+    /// structured extensions of v: 0 = enc(u) || v, 1 = v || enc(u), 2 = enc(w) || v, 3 = v || v, 4 = enc(u) alone
+    Splice(u8),
 }
 
 #[derive(Clone, Debug, PartialEq, Eq, Hash, Serialize, Deserialize)]
@@ -221,6 +223,9 @@ impl<C: Suite> Model for M11<C> {
                 a.push(Dev::W(op));
             }
             a.push(Dev::BothIdentity);
+            for k in 0..5u8 {
+                a.push(Dev::Splice(k));
+            }
             if st.len <= 1000 {
                 for c in DECODERS {
                     a.push(Dev::AddTorsion(false, c));
@@ -340,6 +345,17 @@ impl<C: Suite> Model for M11<C> {
                     let c = ct.as_mut().unwrap();
                     c.u = PkP::<C>::identity();
                     c.w = SgP::<C>::identity();
+                }
+                Dev::Splice(k) => {
+                    let c = ct.as_mut().unwrap();
+                    let (ub, wb, v0) = (pt(&c.u), pt(&c.w), c.v.clone());
+                    c.v = match k {
+                        0 => [ub.as_slice(), v0.as_slice()].concat(),
+                        1 => [v0.as_slice(), ub.as_slice()].concat(),
+                        2 => [wb.as_slice(), v0.as_slice()].concat(),
+                        3 => [v0.as_slice(), v0.as_slice()].concat(),
+                        _ => ub,
+                    };
                 }
                 Dev::AddTorsion(is_w, c) => {
                     let from = if is_w { pt(&ct0.w) } else { pt(&ct0.u) };
